@@ -119,18 +119,164 @@ class DecodeModel:
         return out
 
 
+class Construction:
+    """One construction of a Packet from raw bytes on a decode path: directly by
+    make_shared<Packet>(type, ptr, size), or through an in-repo factory function whose
+    (ptr, size) parameters are passed on unchanged."""
+
+    def __init__(self, site, fn, mk, bind):
+        self.site, self.fn, self.mk, self.bind = site, fn, mk, bind
+
+    def actual(self, arg):
+        """The decode-level expression for a make_shared argument that is a pass-through parameter."""
+        a = strip_all_casts(arg)
+        if a.get("k") == "ref" and a.get("decl") in self.bind:
+            return self.bind[a["decl"]]
+        return arg
+
+    def calls(self, path, *names):
+        """Calls with one of the names that belong to this construction: on the decode path, or anywhere in the factory."""
+        if not self.bind and self.fn is path.fn:
+            return list(path.calls(*names))
+        return [c for c in self.fn.calls(*names)] + [c for c in path.calls(*names)]
+
+
+def is_make_packet(c):
+    return (callee_name(c) or "").startswith("std::make_shared") and ((c.get("callee") or {}).get("targs") or [""])[0] == "ASAM::CMP::Packet"
+
+
+def packet_factory(fb, g):
+    """(mk node, ptr param index, size param index) when in-repo function g returns a Packet it
+    built by make_shared<Packet>(type, P, S) from its own parameters P, S on a straight-line body."""
+    if g is None or g.body is None or not g.cfg_raw:
+        return None
+    mks = [c for c in g.calls() if is_make_packet(c) and len(c.get("args", [])) == 3]
+    if len(mks) != 1:
+        return None
+    if any(len([x for x in g.cfg.succ[b] if x is not None]) > 1 for b in g.cfg.blocks):
+        return None
+    pd = [p["decl"] for p in g.params]
+    a1, a2 = strip_all_casts(mks[0]["args"][1]), strip_all_casts(mks[0]["args"][2])
+    if a1.get("decl") not in pd or a2.get("decl") not in pd:
+        return None
+    if any(d in pd and d in (a1["decl"], a2["decl"]) for d, _, _ in writes_of(g)):
+        return None
+    rets = g.returns()
+    if len(rets) != 1 or rets[0].get("e") is None:
+        return None
+    r = strip_all_casts(facts.expand(g, rets[0]["e"]))
+    if not any(x.get("id") == mks[0]["id"] for x in walk(r)):
+        return None
+    return mks[0], pd.index(a1["decl"]), pd.index(a2["decl"])
+
+
+def constructions(fb, p):
+    """Constructions of a Packet from raw bytes on path p (direct or through a factory)."""
+    out = []
+    for c in p.calls():
+        if is_make_packet(c) and len(c.get("args", [])) == 3:
+            out.append(Construction(c, p.fn, c, {}))
+            continue
+        g = fb.resolve_call(c) if c.get("k") == "call" else None
+        if g is not None and g.name != p.fn.name:
+            pf = packet_factory(fb, g)
+            if pf is not None:
+                args = facts.effective_call(c).get("args", [])
+                bind = {prm["decl"]: args[i] for i, prm in enumerate(g.params) if i < len(args)}
+                out.append(Construction(c, g, pf[0], bind))
+    return out
+
+
 LABELS = {
     "valid": "ASAM::CMP::Packet::isValidPacket",
-    "segmented": DEC + "::isSegmentedPacket",
-    "first": DEC + "::isFirstSegment",
     "added": SEG + "::addSegment",
     "assembled": SEG + "::isAssembled",
 }
+SEGTYPE = MH + "::SegmentType"
+_CMP = {"==": lambda a, b: a == b, "!=": lambda a, b: a != b, "<": lambda a, b: a < b, "<=": lambda a, b: a <= b,
+        ">": lambda a, b: a > b, ">=": lambda a, b: a >= b}
 
 
-def classify(p):
+def _segtype_test(fb, fn, e, path=None, depth=0):
+    """If boolean expression e is a test of MessageHeader::getSegmentType() against a constant,
+    return (op, constant) such that e == (segment type `op` constant); else None.  Looks through
+    locals, negations and one level of in-repo predicate functions (isSegmentedPacket-style)."""
+    e = strip(e)
+    if path is not None:
+        e = strip(path.value_of(e))
+    e = strip(facts.expand(fn, e))
+    neg = False
+    while e.get("k") == "un" and e.get("op") == "!":
+        neg = not neg
+        e = strip(e["e"])
+    ops = None
+    if e.get("k") == "bin" and e.get("op") in _CMP:
+        ops = (e["op"], e["l"], e["r"])
+    elif e.get("k") == "call" and e.get("op") in ("==", "!="):
+        a = ([e["obj"]] if "obj" in e else []) + e.get("args", [])
+        if len(a) == 2:
+            ops = (e["op"], a[0], a[1])
+    if ops is not None:
+        op, l, r = ops
+        for x, y, flip in ((l, r, False), (r, l, True)):
+            xs = strip_all_casts(facts.expand(fn, path.value_of(x) if path is not None else x))
+            if xs.get("k") == "call" and callee_name(xs) == MH + "::getSegmentType" and const_value(y) is not None:
+                if flip:
+                    op = {"<": ">", ">": "<", "<=": ">=", ">=": "<="}.get(op, op)
+                if neg:
+                    op = facts._neg_op(op)
+                return (op, const_value(y))
+        return None
+    if e.get("k") == "call" and depth < 2:
+        g = fb.resolve_call(e)
+        if g is not None and g.body is not None and (g.raw.get("rett") or {}).get("k") == "bool":
+            rets = g.returns()
+            if len(rets) == 1 and rets[0].get("e") is not None:
+                t = _segtype_test(fb, g, rets[0]["e"], None, depth + 1)
+                if t is not None:
+                    return (facts._neg_op(t[0]), t[1]) if neg else t
+    return None
+
+
+def seg_labels(fb, p):
+    """Which segment types are still possible on path p, from the branch outcomes that test the
+    message's segment type (directly, through a local, or through a predicate helper).
+    -> {'segmented': bool|None, 'first': bool|None}"""
+    enum = fb.enum(SEGTYPE)
+    vals = {c["name"]: c["value"] for c in enum["enumerators"]}
+    poss = set(vals.values())
+    for a in p.atoms:
+        if a[0] == "switch":
+            cond = a[4]
+            if cond is not None and callee_name(strip_all_casts(facts.expand(p.fn, p.value_of(cond)))) == MH + "::getSegmentType":
+                poss &= ({a[2]} if a[2] != "default" else poss - set(a[3]))
+            continue
+        if a[0] == "cmp":
+            for x, y, flip in ((a[4], a[5], False), (a[5], a[4], True)):
+                xs = strip_all_casts(facts.expand(p.fn, p.value_of(x)))
+                if xs.get("k") == "call" and callee_name(xs) == MH + "::getSegmentType" and const_value(y) is not None:
+                    op = a[2]
+                    if flip:
+                        op = {"<": ">", ">": "<", "<=": ">=", ">=": "<="}.get(op, op)
+                    poss = {v for v in poss if _CMP[op](v, const_value(y))}
+                    break
+            continue
+        if a[0] == "truth":
+            t = _segtype_test(fb, p.fn, a[3], p)
+            if t is not None:
+                op = t[0] if a[2] else facts._neg_op(t[0])
+                poss = {v for v in poss if _CMP[op](v, t[1])}
+    un, first = vals.get("unsegmented"), vals.get("firstSegment")
+    if un is None or first is None:
+        raise Broken("MessageHeader::SegmentType lost the enumerators unsegmented / firstSegment")
+    return {"segmented": (False if poss == {un} else True if un not in poss else None),
+            "first": (True if poss == {first} else False if first not in poss else None)}
+
+
+def classify(p, fb=None):
     lab = p.truth_labels()
     g = {k: lab.get(v) for k, v in LABELS.items()}
+    g.update(seg_labels(fb or p.fn.fb, p))
     if g["valid"] is False:
         return "invalid-message"
     if g["valid"] is True and g["segmented"] is False:
@@ -464,25 +610,28 @@ def rule_default_entry_rejected(res, rid, m):
 
 
 def rule_buffer_growth(res, rid, m):
-    """C17-R2: the reassembly buffer grows only in the first-segment constructor and
-    in addSegment, by resize (never reserve), each time by the copied length."""
+    """C17-R2: the reassembly buffer is sized only in the first-segment constructor and in
+    addSegment, by operations whose effect on size() is exact (resize, assign/insert of a
+    range) — never reserve or another modifier."""
     fb = m.fb
     writers = {}
     for f in fb.all_functions():
         if not f.name.startswith(SEG + "::"):
             continue
+        sizing = {c["id"]: kind for fld, kind, c, ln in facts.vector_sizing(f, m.buffer)}
         for d, kind, n in writes_of(f):
             if d == m.buffer and kind.startswith("call:"):
-                writers.setdefault(f.name, []).append((kind, n))
+                writers.setdefault(f.name, []).append((kind, n, sizing.get(n["id"])))
     allowed = {m.ctor.name, m.addSegment.name}
     for fn, ws in sorted(writers.items()):
-        for kind, n in ws:
-            okk = fn in allowed and kind in ("call:resize",)
+        for kind, n, sk in ws:
+            okk = fn in allowed and sk in ("set", "grow")
             res.check(okk, rid, "%s:%s" % (fn.split("::")[-1], kind), n.get("loc") if isinstance(n, dict) else "",
-                      "buffer sized by resize in %s" % fn.split("::")[-1],
-                      "reassembly buffer is modified by %s in %s (only resize in the constructor/addSegment is expected)" % (kind, fn))
+                      "buffer sized by %s in %s" % (kind[5:], fn.split("::")[-1]),
+                      "reassembly buffer is modified by %s in %s (only resize / range assign / range insert at end() in the constructor and addSegment "
+                      "have an exact effect on size())" % (kind, fn))
     if not (set(writers) & allowed):
-        raise Broken("no resize of the reassembly buffer found")
+        raise Broken("no sizing of the reassembly buffer found")
 
 
 def rule_modular_successor(res, rid, m):
@@ -886,7 +1035,7 @@ def rule_unsegmented_delivered(res, rid, m):
             continue
         ops = m.path_table_ops(p)
         pushes = list(p.calls("std::vector::push_back"))
-        mk = [c for c in p.calls() if (callee_name(c) or "").startswith("std::make_shared")]
+        mk = constructions(m.fb, p)
         ok = len(pushes) == 1 and len(mk) == 1 and all(k == "erase" for k, _ in ops)
         res.check(ok, rid, "unsegmented:delivered", pushes[0].get("loc") if pushes else m.decode.loc,
                   "one packet constructed and pushed; table only erased", "unsegmented path pushes %d packet(s), table ops %s" % (len(pushes), [k for k, _ in ops]))
@@ -933,10 +1082,13 @@ def rule_output_sources(res, rid, m):
             why = "pushed value has no assignment on the path"
             if last is not None:
                 names = facts.called_names(last)
-                if any(x.startswith("std::make_shared") for x in names):
+                cons = [c for c in constructions(m.fb, p) if any(x.get("id") == c.site["id"] for x in walk(last))]
+                if cons:
                     d = reads(last)
-                    ok = m.table not in d
-                    why = "packet built by make_shared from the current cursor"
+                    ok = m.table not in d and not any("Decoder" in (prm["t"].get("s") or "") for prm in cons[0].fn.params if cons[0].bind)
+                    why = "packet built by make_shared from the current cursor" + (" (in %s)" % cons[0].fn.name.split("::")[-1] if cons[0].bind else "")
+                    if not ok:
+                        why = "the packet construction reads the reassembly table"
                 elif SEG + "::getPacket" in names:
                     ok = True
                     why = "packet taken from the current key's entry"
